@@ -20,3 +20,7 @@ def add(pid, pkg, level, qn, tn, module="harness", **kw):
 add("C20", "c20", "exploration", 400, 4000, exhaustive_if=["FuncsExhaustive"],
     assumptions=["reflection finds every function field of Funcs (fields of func type whose name ends in '_')",
                  "sentinel arguments/results: delegation is judged by identity of what the recorder saw and returned"])
+
+add("C17", "c17", "exploration", 2500, 60000,
+    assumptions=["the reference grammar in c17_test.go transcribes the grammar documented in ociref/reference.go and the OCI tag grammar; registered digest algorithms are sha256/384/512",
+                 "router agreement is observed through ociserver.ServeHTTP with a recording backend (internal/ocirequest is not importable)"])
